@@ -155,6 +155,19 @@ def run(ctx):
                     q_bad = q_bad or "brk(0) returns %s, the current break is %s" % (A.show(U.strip(raxw[0][3])), A.show(want))
             if any(e[0] == "resize" for e in evs):
                 q_bad = q_bad or "query path resizes the heap"
+        elif rdi_zero is False and any(e[0] == "checked" and e[1] == "Sub" and e[4] == "none" for e in evs):
+            # p below the heap base: refuse, report the current break, change nothing
+            if any(e[0] in ("resize", "resize_err") for e in evs) or \
+                    any(e[0] == "store" and fieldnames(e[1])[-1:] == ["brk_length"] for e in evs if not first):
+                m_bad = m_bad or "a break below the heap base resizes the heap"
+            cur_len = None
+            for e in evs:
+                if e[0] == "store" and fieldnames(e[1])[-1:] == ["brk_length"]:
+                    cur_len = e[2]
+            want = ("bin", "Add", base, cur_len if cur_len is not None else A.W(LENGTH, 64), 64)
+            if len(raxw) != 1 or not U.affine_eq(raxw[0][3], want):
+                m_bad = m_bad or "a break below the heap base returns %s, expected the current break" % (
+                    A.show(raxw[0][3]) if raxw else None)
         elif rdi_zero is False:
             nm += 1
             rs = [e for e in evs if e[0] == "resize"]
